@@ -512,32 +512,6 @@ func R30() Rule {
 		}
 		n := 0
 		seenFn := map[string]bool{}
-		// a helper all of whose uses lie in allowed functions is itself allowed
-		// (extracting a per-case helper from the applier or the evaluator changes nothing)
-		var allowedWhy func(root *ssa.Function, visiting map[*ssa.Function]bool) (string, bool)
-		allowedWhy = func(root *ssa.Function, visiting map[*ssa.Function]bool) (string, bool) {
-			if why, ok := allowed[core.FuncName(root)]; ok {
-				return why, true
-			}
-			if visiting[root] {
-				return "", false
-			}
-			visiting[root] = true
-			defer delete(visiting, root)
-			refs := c.P.Refs(root)
-			if len(refs) == 0 {
-				return "", false
-			}
-			why := ""
-			for _, r := range refs {
-				w, ok := allowedWhy(core.Root(r.Instr.Parent()), visiting)
-				if !ok {
-					return "", false
-				}
-				why = "helper used only by: " + strings.TrimPrefix(w, "helper used only by: ")
-			}
-			return why, true
-		}
 		for _, fn := range c.P.SrcFuncs(core.PkgBttest) {
 			for _, b := range fn.Blocks {
 				for _, in := range b.Instrs {
@@ -568,7 +542,7 @@ func R30() Rule {
 					}
 					seenFn[construct] = true
 					c.Fn(root)
-					if why, ok := allowedWhy(core.Root(fn), map[*ssa.Function]bool{}); ok {
+					if why, ok := tableOrHelperOf(c.P, core.Root(fn), allowed); ok {
 						c.Ok("R30", construct, st.Pos(), false, "%s", why)
 					} else {
 						c.Bad("R30", construct, st.Pos(), "%s edits the row structure directly: rows may only be changed through applyMutations / the read-modify-write loop (same validation and semantics for every write RPC)", root)
